@@ -420,7 +420,11 @@ class _Run:
             a = self.ev(e.left, env)
             b = self.ev(e.right, env)
             if isinstance(e.op, (ast.BitOr, ast.BitAnd, ast.BitXor, ast.Sub)):
-                return a if a is not None and a.kind == "set" else (b if b is not None and b.kind == "set" else None)
+                t = a if a is not None and a.kind == "set" else (b if b is not None and b.kind == "set" else None)
+                # set algebra on dictionary views yields a plain set, whatever the (insertion) order of the dictionaries was
+                if t is None and any(isinstance(x, ast.Call) and isinstance(x.func, ast.Attribute) and x.func.attr in ("keys", "items") and not x.args for x in (e.left, e.right)):
+                    t = self.src("set", hint_cls(e), "`%s` (set algebra on a dictionary view)" % " ".join(u(e).split())[:60], getattr(e, "lineno", 0))
+                return t
             if isinstance(e.op, ast.Add):
                 for t in (a, b):
                     if t is not None and t.kind in ("seq",):
